@@ -3,9 +3,17 @@ Spec/Info/Mp4.lean — ISO/IEC 14496-12: the Media Header Box (§8.4.2: FullBox 
 creation_time, modification_time, timescale, duration — 32-bit times in version 0, 64-bit in version 1 —
 language, pre_defined) and the common part of an AudioSampleEntry (§8.5.2: 6 reserved bytes,
 data_reference_index; 8 reserved bytes, channelcount, samplesize, pre_defined, reserved, samplerate as
-16.16 fixed point; child boxes).  Payloads only.  Does not mention mutagen's parsers.
+16.16 fixed point; child boxes), and the file around them: `moov` / `trak` / `mdia` { `mdhd`, `hdlr` (handler
+type "soun"), `minf` / `stbl` / `stsd` (FullBox, entry_count, sample entries) } as boxes of the
+specification side of Model/Container/Mp4.lean (`Atom`, `renderList`).  Codec-specific boxes: the ALAC
+magic cookie (ALACMagicCookieDescription), `dac3` (ETSI TS 102 366 F.4), `esds` (ISO/IEC 14496-1 §7.2.6:
+ES_Descriptor, DecoderConfigDescriptor, DecoderSpecificInfo = AudioSpecificConfig of 14496-3 §1.6.2.1).
+Does not mention mutagen's parsers.
 -/
 import MutagenModel.Model.Info.Mp4
+import MutagenModel.Spec.Tables
+import MutagenModel.Spec.Info.Mp4Height
+import MutagenModel.Model.Bits
 namespace Mutagen.Spec.Mp4Info
 open Mutagen Mutagen.Info
 
@@ -46,23 +54,228 @@ structure AudioEntry where
   sampleRate : Nat
   /-- … and its fraction -/
   sampleRateFraction : Nat
-  /-- the child boxes (esds, alac, dac3, …) -/
-  children : Bytes
 deriving DecidableEq, Repr
 
-def entryPayload (e : AudioEntry) : Bytes :=
+/-- the 28 bytes in front of the child boxes -/
+def entryFixed (e : AudioEntry) : Bytes :=
   zeros 6 ++ toBE 2 e.dataReferenceIndex ++ zeros 8 ++ toBE 2 e.channelCount ++ toBE 2 e.sampleSize ++ toBE 2 e.preDefined ++
-  toBE 2 e.reserved ++ toBE 4 (e.sampleRate * 2 ^ 16 + e.sampleRateFraction) ++ e.children
+  toBE 2 e.reserved ++ toBE 4 (e.sampleRate * 2 ^ 16 + e.sampleRateFraction)
 
 def AudioEntry.OK (e : AudioEntry) : Prop :=
   e.dataReferenceIndex < 2 ^ 16 ∧ e.channelCount < 2 ^ 16 ∧ e.sampleSize < 2 ^ 16 ∧ e.preDefined < 2 ^ 16 ∧ e.reserved < 2 ^ 16 ∧
-  e.sampleRate < 2 ^ 16 ∧ e.sampleRateFraction < 2 ^ 16 ∧
-  -- at least one child box; its size field says 8 or more, its type is not one mutagen treats as a container
-  8 ≤ e.children.length ∧ 8 ≤ ofBE (e.children.take 4) ∧ Mutagen.Mp4C.isContainer ((e.children.drop 4).take 4) = false
+  e.sampleRate < 2 ^ 16 ∧ e.sampleRateFraction < 2 ^ 16
 
 instance (e : AudioEntry) : Decidable e.OK := by unfold AudioEntry.OK; infer_instance
 
-def entryExpected (e : AudioEntry) : Info.Mp4.Entry :=
-  { channels := e.channelCount, sampleSize := e.sampleSize, sampleRate := e.sampleRate }
+/-- ALACSpecificConfig -/
+structure AlacCookie where
+  frameLength : Nat
+  bitDepth : Nat
+  pb : Nat
+  mb : Nat
+  kb : Nat
+  numChannels : Nat
+  maxRun : Nat
+  maxFrameBytes : Nat
+  avgBitRate : Nat
+  sampleRate : Nat
+deriving DecidableEq, Repr
+
+/-- FullBox header (version 0, flags 0) and the cookie with compatibleVersion 0 -/
+def alacPayload (c : AlacCookie) : Bytes :=
+  [0, 0, 0, 0] ++ toBE 4 c.frameLength ++ toBE 1 0 ++ toBE 1 c.bitDepth ++ toBE 1 c.pb ++ toBE 1 c.mb ++ toBE 1 c.kb ++
+  toBE 1 c.numChannels ++ toBE 2 c.maxRun ++ toBE 4 c.maxFrameBytes ++ toBE 4 c.avgBitRate ++ toBE 4 c.sampleRate
+
+def AlacCookie.OK (c : AlacCookie) : Prop :=
+  c.frameLength < 2 ^ 32 ∧ c.bitDepth < 256 ∧ c.pb < 256 ∧ c.mb < 256 ∧ c.kb < 256 ∧ c.numChannels < 256 ∧ c.maxRun < 2 ^ 16 ∧
+  c.maxFrameBytes < 2 ^ 32 ∧ c.avgBitRate < 2 ^ 32 ∧ c.sampleRate < 2 ^ 32
+
+instance (c : AlacCookie) : Decidable c.OK := by unfold AlacCookie.OK; infer_instance
+
+/-- AC3SpecificBox -/
+structure Dac3 where
+  fscod : Nat
+  bsid : Nat
+  bsmod : Nat
+  acmod : Nat
+  lfeon : Nat
+  bitRateCode : Nat
+  reserved : Nat
+deriving DecidableEq, Repr
+
+/-- fscod 2, bsid 5, bsmod 3, acmod 3, lfeon 1, bit_rate_code 5, reserved 5 bits -/
+def dac3Payload (d : Dac3) : Bytes :=
+  toBE 3 (d.fscod * 2 ^ 22 + d.bsid * 2 ^ 17 + d.bsmod * 2 ^ 14 + d.acmod * 2 ^ 11 + d.lfeon * 2 ^ 10 + d.bitRateCode * 2 ^ 5 + d.reserved)
+
+/-- bit_rate_code 0…18 are the defined ones (A/52 table 5.18 without the "upper limit" bit) -/
+def Dac3.OK (d : Dac3) : Prop :=
+  d.fscod < 4 ∧ d.bsid < 32 ∧ d.bsmod < 8 ∧ d.acmod < 8 ∧ d.lfeon < 2 ∧ d.bitRateCode < 19 ∧ d.reserved < 32
+
+instance (d : Dac3) : Decidable d.OK := by unfold Dac3.OK; infer_instance
+
+/-- ES_Descriptor → DecoderConfigDescriptor (MPEG-4 audio) → AudioSpecificConfig of a General Audio object type
+without extension: no dependsOn / URL / OCR in the ES descriptor; audioObjectType 1 (AAC Main), 2 (LC), 3 (SSR),
+4 (LTP) or 7 (TwinVQ); sampling frequency by index or explicitly; channelConfiguration 1…7; GASpecificConfig
+with dependsOnCoreCoder = extensionFlag = 0 -/
+structure Esds where
+  /-- descriptor sizes in one byte, or in the four-byte form 80 80 80 nn -/
+  longForm : Bool
+  esId : Nat
+  streamPriority : Nat
+  upStream : Nat
+  bufferSizeDB : Nat
+  maxBitrate : Nat
+  avgBitrate : Nat
+  audioObjectType : Nat
+  /-- samplingFrequencyIndex 0…12, or 15 with the frequency written out in 24 bits -/
+  freqIndex : Nat
+  explicitFreq : Nat
+  channelConfiguration : Nat
+  frameLengthFlag : Nat
+  /-- what follows the DecoderConfigDescriptor in the ES_Descriptor (SLConfigDescriptor) -/
+  slConfig : Bytes
+deriving DecidableEq, Repr
+
+/-- a descriptor size below 128 -/
+def descSize (long : Bool) (n : Nat) : Bytes := if long then [0x80, 0x80, 0x80, UInt8.ofNat n] else [UInt8.ofNat n]
+
+/-- AudioSpecificConfig: audioObjectType 5 bits, samplingFrequencyIndex 4 [, samplingFrequency 24], channelConfiguration 4,
+GASpecificConfig: frameLengthFlag 1, dependsOnCoreCoder 1 = 0, extensionFlag 1 = 0 -/
+def ascBits (e : Esds) : List Bool :=
+  natToBits 5 e.audioObjectType ++ (natToBits 4 e.freqIndex ++ ((if e.freqIndex = 15 then natToBits 24 e.explicitFreq else []) ++
+    (natToBits 4 e.channelConfiguration ++ (natToBits 1 e.frameLengthFlag ++ (natToBits 1 0 ++ natToBits 1 0)))))
+
+def ascBytes (e : Esds) : Bytes := bitsToBytes (ascBits e)
+
+/-- objectTypeIndication 0x40, streamType 5 (audio), upStream, reserved 1, bufferSizeDB, maxBitrate, avgBitrate,
+DecoderSpecificInfo -/
+def dcdBody (e : Esds) : Bytes :=
+  [0x40] ++ toBE 1 (5 * 4 + e.upStream * 2 + 1) ++ toBE 3 e.bufferSizeDB ++ toBE 4 e.maxBitrate ++ toBE 4 e.avgBitrate ++
+  ([5] ++ descSize e.longForm (ascBytes e).length ++ ascBytes e)
+
+def esBody (e : Esds) : Bytes :=
+  toBE 2 e.esId ++ toBE 1 e.streamPriority ++ ([4] ++ descSize e.longForm (dcdBody e).length ++ dcdBody e) ++ e.slConfig
+
+/-- FullBox header (version 0, flags 0), ES_DescrTag, size, ES_Descriptor -/
+def esdsPayload (e : Esds) : Bytes :=
+  [0, 0, 0, 0] ++ ([3] ++ descSize e.longForm (esBody e).length ++ esBody e)
+
+def Esds.OK (e : Esds) : Prop :=
+  e.esId < 2 ^ 16 ∧ e.streamPriority < 32 ∧ e.upStream < 2 ∧ e.bufferSizeDB < 2 ^ 24 ∧ e.maxBitrate < 2 ^ 32 ∧ e.avgBitrate < 2 ^ 32 ∧
+  e.audioObjectType ∈ [1, 2, 3, 4, 7] ∧ (e.freqIndex < 13 ∨ e.freqIndex = 15) ∧ e.explicitFreq < 2 ^ 24 ∧
+  1 ≤ e.channelConfiguration ∧ e.channelConfiguration ≤ 7 ∧ e.frameLengthFlag < 2 ∧ (esBody e).length < 128
+
+instance (e : Esds) : Decidable e.OK := by unfold Esds.OK; infer_instance
+
+/-- the sampling frequency the AudioSpecificConfig names (14496-3 table 1.18) -/
+def Esds.frequency (e : Esds) : Nat := if e.freqIndex = 15 then e.explicitFreq else Tables.aacFreqs.getD e.freqIndex 0
+
+/-- what the sample entry is and which codec-specific box comes first in it -/
+inductive Codec
+  /-- any entry name with any first child box, except the three pairs below -/
+  | plain (name : Bytes) (extra : Mp4C.Atom)
+  | alac (c : AlacCookie)
+  | dac3 (d : Dac3)
+  | esds (e : Esds)
+deriving Repr
+
+def Codec.name : Codec → Bytes
+  | .plain n _ => n
+  | .alac _ => Mp4.nAlac
+  | .dac3 _ => Mp4.nAc3
+  | .esds _ => Mp4.nMp4a
+
+def Codec.extra : Codec → Mp4C.Atom
+  | .plain _ x => x
+  | .alac c => .leaf Mp4.nAlac false (alacPayload c)
+  | .dac3 d => .leaf Mp4.nDac3 false (dac3Payload d)
+  | .esds e => .leaf Mp4.nEsds false (esdsPayload e)
+
+def Codec.OK : Codec → Prop
+  | .plain n x => n.length = 4 ∧ Mp4C.isContainer n = false ∧ x.wf ∧ x.height ≤ 60 ∧
+      ¬ (n = Mp4.nMp4a ∧ x.name = Mp4.nEsds) ∧ ¬ (n = Mp4.nAlac ∧ x.name = Mp4.nAlac) ∧ ¬ (n = Mp4.nAc3 ∧ x.name = Mp4.nDac3) ∧
+      (∀ nm w pl, x = .leaf nm w pl → x.size < 2 ^ 62)
+  | .alac c => c.OK
+  | .dac3 d => d.OK
+  | .esds e => e.OK
+
+structure Fields where
+  /-- top-level boxes in front of `moov` (ftyp, free, mdat, …) and behind it -/
+  before : List Mp4C.Atom
+  after : List Mp4C.Atom
+  /-- fewer than 8 bytes behind the last box -/
+  tail : Bytes
+  /-- the children of `moov` in front of the audio track (mvhd, …: no track) and behind it -/
+  moovBefore : List Mp4C.Atom
+  moovAfter : List Mp4C.Atom
+  /-- the children of `trak` in front of `mdia` (tkhd, …) and behind it -/
+  trakBefore : List Mp4C.Atom
+  trakAfter : List Mp4C.Atom
+  mdhd : Mdhd
+  /-- the handler box: version/flags and pre_defined (8 bytes), handler type "soun", the rest -/
+  hdlrHead : Bytes
+  hdlrRest : Bytes
+  /-- the children of `minf` in front of `stbl` (smhd, dinf) -/
+  minfBefore : List Mp4C.Atom
+  /-- the children of `stbl` behind `stsd` (stts, stsc, stsz, stco) -/
+  stblAfter : List Mp4C.Atom
+  stsdFlags : Nat
+  entryCount : Nat
+  entry : AudioEntry
+  codec : Codec
+  /-- further child boxes of the sample entry, and further sample entries -/
+  entryMore : Bytes
+  moreEntries : Bytes
+
+open Mp4C in
+def entryAtom (h : Fields) : Atom :=
+  .leaf h.codec.name false (entryFixed h.entry ++ h.codec.extra.render ++ h.entryMore)
+
+open Mp4C in
+def stsdAtom (h : Fields) : Atom :=
+  .leaf Mp4.nStsd false (toBE 1 0 ++ toBE 3 h.stsdFlags ++ toBE 4 h.entryCount ++ (entryAtom h).render ++ h.moreEntries)
+
+open Mp4C in
+def mdiaAtom (h : Fields) : Atom :=
+  .node nMdia false []
+    [.leaf Mp4.nMdhd false (mdhdPayload h.mdhd),
+     .leaf Mp4.nHdlr false (h.hdlrHead ++ Mp4.nSoun ++ h.hdlrRest),
+     .node nMinf false [] (h.minfBefore ++ [.node nStbl false [] (stsdAtom h :: h.stblAfter)])]
+
+open Mp4C in
+def tree (h : Fields) : List Atom :=
+  h.before ++ [.node nMoov false [] (h.moovBefore ++ [.node nTrak false [] (h.trakBefore ++ [mdiaAtom h] ++ h.trakAfter)] ++ h.moovAfter)] ++ h.after
+
+def build (h : Fields) : Bytes := Mp4C.renderList (tree h) ++ h.tail
+
+open Mp4C in
+/-- field widths; well-formed boxes everywhere (`wfList`: names of four bytes, sizes that fit); the lists
+in front of `moov` / the track / `mdia` / `stbl` do not contain a box of that name; at least one sample entry -/
+def Fields.OK (h : Fields) : Prop :=
+  wfList (tree h) ∧ heightList (tree h) ≤ 65 ∧ h.tail.length < 8 ∧
+  (∀ x ∈ h.before, x.name ≠ nMoov) ∧ (∀ x ∈ h.moovBefore, x.name ≠ nTrak) ∧ (∀ x ∈ h.trakBefore, x.name ≠ nMdia) ∧
+  (∀ x ∈ h.minfBefore, x.name ≠ nStbl) ∧
+  h.mdhd.OK ∧ h.hdlrHead.length = 8 ∧ h.stsdFlags < 2 ^ 24 ∧ 1 ≤ h.entryCount ∧ h.entryCount < 2 ^ 32 ∧
+  h.entry.OK ∧ h.codec.OK
+
+/-- what the codec-specific box says -/
+def entryExpected (e : AudioEntry) : Codec → Info.Mp4.Entry
+  | .plain _ _ => { channels := e.channelCount, sampleSize := e.sampleSize, sampleRate := e.sampleRate }
+  | .alac c => { channels := c.numChannels, sampleSize := c.bitDepth, sampleRate := c.sampleRate, bitrate := c.avgBitRate }
+  | .dac3 d => { channels := Tables.ac3Channels.getD d.acmod 0 + d.lfeon, sampleSize := e.sampleSize, sampleRate := e.sampleRate,
+                 bitrate := Tables.ac3Bitrates.getD d.bitRateCode 0 * 1000 }
+  -- The AudioSpecificConfig is authoritative for channels and rate, except where it leaves them open: channelConfiguration 1
+  -- may be mono or (implicit parametric stereo) stereo, and a rate up to 24 kHz of an SBR-capable object type may be doubled
+  -- by implicit SBR — there the sample entry decides.  The bitrate is avgBitrate of the DecoderConfigDescriptor.
+  | .esds x => { channels := if x.channelConfiguration = 1 then e.channelCount else if x.channelConfiguration = 7 then 8 else x.channelConfiguration,
+                 sampleSize := e.sampleSize,
+                 sampleRate := if x.audioObjectType ≠ 7 ∧ x.frequency ≤ 24000 then e.sampleRate
+                               else if x.frequency = 0 then e.sampleRate else x.frequency,
+                 bitrate := x.avgBitrate, codecParam := some (0x40, some x.audioObjectType) }
+
+def expected (h : Fields) : Info.Mp4.Info :=
+  let en := entryExpected h.entry h.codec
+  { length := mdhdExpected h.mdhd, channels := en.channels, bitsPerSample := en.sampleSize, sampleRate := en.sampleRate,
+    bitrate := en.bitrate, codecName := h.codec.name, codecParam := en.codecParam }
 
 end Mutagen.Spec.Mp4Info
